@@ -164,8 +164,13 @@ def gen_plan(seed, tier="quick", variant=None):
         nf = rng.choice([0, 1, 2, 3, 5])
         for _ in range(nf):
             kind = rng.choice(["error", "error", "error_persist", "error_after_apply", "silent", "cut_before", "cut_mid",
-                               "cut_after", "delay", "move_leader", "meta_error", "refuse", "broker_bounce", "stale", "add_partitions", "add_partitions"])
+                               "cut_after", "delay", "move_leader", "meta_error", "refuse", "broker_bounce", "stale", "add_partitions", "add_partitions",
+                               "versions_error"])
             node = rng.choice([None] + list(range(1, nb + 1)))
+            if kind == "versions_error":
+                # discovery answered with an error code (UNSUPPORTED_VERSION, or anything): with or without entries listed
+                faults.append({"api": 18, "node": None, "nth": 0, "act": "error", "code": rng.choice([35, 35, 35, 2, 42, 999]), "count": rng.choice([1, 1, 3])})
+                continue
             if kind in ("error", "error_persist", "error_after_apply"):
                 f = {"api": 0, "node": node, "nth": rng.randint(0, 5), "act": "error" if kind != "error_after_apply" else "error_after_apply",
                      "code": rng.choice(PASS_THROUGH_CODES + RETRY_CODES)}
@@ -231,6 +236,11 @@ def gen_plan(seed, tier="quick", variant=None):
         t0 = round(rng.random() * horizon * 0.3, 6)
         faults = faults[:1] + [{"t": t0, "act": "broker_down", "node": n, "elect": rng.random() < 0.3},
                                {"t": round(t0 + rng.choice([0.6, 1.5, 3.0]), 6), "act": "broker_up", "node": n}]
+        if nb > 1 and rng.random() < 0.3:
+            # ... or the broker leaves for good (leadership moves first): the only signal a producer without acknowledgements
+            # ever gets that its routing is stale is the failed transmission
+            faults = [{"t": t0, "act": "retire_broker", "node": n}]
+            cfg["warm"] = True
         # a burst of sends right after the broker went away, spread over the partitions: one batch spans dead and healthy brokers
         pc["partitioner"] = rng.choice(["rr", "rr", "hashed"])
         sends_ = [o for o in ops if o["op"] == "send"]
@@ -272,6 +282,11 @@ def gen_plan(seed, tier="quick", variant=None):
             cfg["seg"] = [rng.choice(["coalesce", "writes", "random"]), rng.choice(["coalesce", "writes", "random"])]
         for j in range(rng.randint(1, 4)):
             post.append({"id": 1000 + j, "topic": rng.choice(topics)["name"], "key": ("70%04x" % j) if pc["partitioner"] == "hashed" else None,
+                         "msgs": [3], "dt": round(0.5 + rng.random(), 6)})
+    if faults and all(f.get("act") == "retire_broker" for f in faults):
+        # sends after the departure has been digested: whatever acknowledgement level, they must be stored
+        for j in range(rng.randint(2, 4)):
+            post.append({"id": 1000 + j, "topic": topics[0]["name"], "key": ("70%04x" % j) if pc["partitioner"] == "hashed" else None,
                          "msgs": [3], "dt": round(0.5 + rng.random(), 6)})
     plan = {"family": FAMILY, "seed": seed, "tier": tier, "cfg": cfg, "ops": ops, "faults": faults, "post": post,
             "t_faults_end": t_faults_end}
@@ -863,13 +878,15 @@ def _run(w, plan):
                 res.probe("hashed_text_form_checked")
 
     # ---- C08 recovery (producer half) ----
-    if cfg["variant"] == "recovery":
+    if cfg["variant"] == "recovery" or (plan["faults"] and all(f.get("act") == "retire_broker" for f in plan["faults"])):
         for sid in order:
             s = sends[sid]
             if not s["post"]:
                 continue
             if s["topic"] not in topics_parts:
                 continue
+            if state.get("stop_seq") is not None and (not s["w"].fires or s["w"].seq >= state["stop_seq"]):
+                continue  # the application stopped the producer while this send was outstanding
             # The producer has one attempt counter per batch cycle, and looking up a topic that does not exist spends
             # it (producer.py _next_partition).  A send whose life overlaps such a lookup may find the budget gone, so
             # "within the retry budget" promises nothing for it.
@@ -885,6 +902,23 @@ def _run(w, plan):
                             "send %d issued %.2fs after the last fault: %r" % (sid, s["t"] - t_base[0] - plan["t_faults_end"], s["w"].value))
             else:
                 res.probe("post_fault_send_ok")
+                only_retirement = bool(plan["faults"]) and all(f.get("act") == "retire_broker" for f in plan["faults"])
+                if pc["acks"] == 0 and only_retirement:
+                    # no acknowledgement, and the only leadership change was a broker leaving for good: its failed
+                    # transmissions must have re-routed the producer, so what it reports sent now is stored
+                    res.oblige("C08")
+                    stored = set()
+                    for t_ in cl.topics.values():
+                        for p_ in t_.partitions.values():
+                            for m_ in p_.messages():
+                                stored.add((m_.key, m_.value))
+                    lost = [kv for kv in s["kvs"] if kv[1] is not None and kv not in stored]
+                    if lost:
+                        res.violate("C08", "C08:send-after-a-broker-left-for-good-never-stored:acks0",
+                                    "send %d (no acknowledgements) issued %.2fs after the broker had left reported success, %d of its messages are in no log" % (
+                                        sid, s["t"] - t_base[0] - plan["t_faults_end"], len(lost)))
+                    else:
+                        res.probe("acks0_post_fault_send_stored_after_retirement")
 
     # ---- C04 ----
     w.check_wire("C04")
@@ -1341,6 +1375,11 @@ def _check_versions(w, plan, res, client):
         if e["key"] not in (0, 1) or e.get("body") is None:
             continue
         res.oblige("C04")
+        if e["version"] != 0 and (adv is None or e["logseq"] < adv_seq):
+            # no error-free version table had reached the client when this request was written (discovery unanswered,
+            # answered with an error code - with or without entries - or still in progress): version 0 is the fallback
+            res.violate("C04", "C04:version-nonzero-without-a-successful-discovery", "api %d v%d written before any error-free ApiVersions answer had arrived" % (
+                e["key"], e["version"]))
         if adv is not None and e["logseq"] > adv_seq:
             lo, hi = adv.get(e["key"], (0, 0))
             if not (lo <= e["version"] <= hi) or e["version"] > 2:
